@@ -3,7 +3,7 @@ import os
 from .. import common, sandbox, wproxy, rawhttp, gen_rbac, gen_http
 from ..oracles import rbac
 
-PATHS = ["/", "/a", "/A/b", "/ab?k=v", "/a/b?k=v&q=w", "/b", "/machine?comp=goalstate", "/metadata/instance?api-version=2021-01-01",
+PATHS = ["/", "/a", "/a?k=v", "/a?k=w", "/a?K=V&q=w", "/a?q=", "/A/b", "/ab?k=v", "/a/b?k=v&q=w", "/b", "/machine?comp=goalstate", "/metadata/instance?api-version=2021-01-01",
          "/a/../b", "/..", "/a/..", "/..a", "/a..b/c", "/a/%2e%2e/b", "/a?x=..", "/a//b", "/provision/x", "/a/.../b"]
 DESTS = ["wireserver", "hostga", "imds", "self", "other"]
 ATTR = ["record", "record", "record", "none", "deadpid", "unknownuid", "nonutf8"]
@@ -51,6 +51,7 @@ def worker(args, scratch):
                   w.identity("bob", "Tool", []), w.identity("gidzero", "python3", ["-c", "pass"])]
         bad = w.identity("alice", "bad\udcff\udcfename", ["z"])
         known_ids = {}
+        pool = {}     # (dest, ident index) -> open keep-alive connection; survives policy changes on purpose
         for pol in range(args["policies"]):
             docs = {}
             for ep in ("wireserver", "hostga", "imds"):
@@ -93,7 +94,14 @@ def worker(args, scratch):
                     case["user"] = bad.user
                     conn = w.open(dest, bad)
                 else:
-                    conn = w.open(dest, ident)
+                    key = (dest, ident.user)
+                    conn = pool.pop(key, None) if r.random() < 0.6 else None
+                    if conn is not None:
+                        case["reused_connection"] = True
+                        cnt["requests_on_reused_keepalive_connection"] = cnt.get("requests_on_reused_keepalive_connection", 0) + 1
+                    else:
+                        conn = w.open(dest, ident)
+                    kw["pool_key"] = key
                 case["claims"] = claims
                 exp = expected(case, docs, idents)
                 raw = rawhttp.build_request(method, target, hdrs, body)
@@ -104,7 +112,10 @@ def worker(args, scratch):
                 except Exception as e:  # noqa
                     status = "error:%r" % (e,)
                     resp = None
-                conn.close()
+                if kw.get("pool_key") and resp is not None and r.random() < 0.7 and kw["pool_key"] not in pool:
+                    pool[kw["pool_key"]] = conn     # keep it open for a later request (possibly under another policy)
+                else:
+                    conn.close()
                 res["evaluations"] += 1
                 ups = w.upstream(vid)
                 relayed = len(ups) > 0
